@@ -1035,7 +1035,7 @@ func concCmd(args []string) error {
 	tcp := os.Getenv("VERIF_CONC_TCP") == "1"
 	nth, nops := 6, 60
 	if tier == "thorough" {
-		nth, nops = 8, 250
+		nth, nops = 8, 120
 	}
 	if v, err := strconv.Atoi(os.Getenv("VERIF_CONC_THREADS")); err == nil && v > 0 {
 		nth = v
